@@ -578,7 +578,8 @@ class ViewParameter(AbstractParameter, ParameterListener):
 
     @tensor.setter
     def tensor(self, tensor: Tensor) -> None:
-        self.parameter.tensor[..., self.indices] = tensor
+        with torch.no_grad():
+            self.parameter.tensor[..., self.indices] = tensor
         self.parameter.fire_parameter_changed()
 
     @property
